@@ -404,7 +404,8 @@ def negatives(res, v, seg, new, viol):
         if fr.kind != 'leaf' and not (seg == 'MSH' and i <= 2):
             nc = max(tables.comp_index(c.name) for c in fr.children)
             for n in ('%s_%d' % (fr.name, nc + 1), '%s_99' % fr.name, '%s_1_99' % fr.name, '%s_x' % fr.name, '%s_1_1_1' % fr.name,
-                      'ZZ_1', '%s_%d' % ('XPN' if fr.datatype != 'XPN' else 'CX', 1)):
+                      'ZZ_1', '%s_%d' % ('XPN' if fr.datatype != 'XPN' else 'CX', 1),
+                      '%s_0' % fr.name, '%s_-1' % fr.name, ('%s_0' % fr.name).lower(), '%s_1_0' % fr.name, '%s_%d_0' % (fr.name, nc), '%s_1_-1' % fr.name):
                 for op in ('get', 'set'):
                     res.evaluations += 1
                     res.enumerated += 1
